@@ -284,8 +284,8 @@ class History:
                 if ch.chance(30):
                     d["reader"] = self.schema_ref()[0]
                     self.ctx.probe("reader_schema_call")
-                if ch.chance(20):
-                    d["opts"] = {"return_record_name": True}
+                if ch.chance(25):
+                    d["opts"] = ch.pick(READ_OPTS)
                 return d
         if k == 3:
             sref, key = self.schema_ref()
@@ -309,7 +309,7 @@ class History:
                 b = ch.pick(cands)
                 d = {"op": ch.pick(["cread", "cread", "bread", "is_avro"]), "bytes": b[0]}
                 if d["op"] == "cread" and ch.chance(40):
-                    d["opts"] = {"return_record_name": True}
+                    d["opts"] = ch.pick(READ_OPTS)
                 if d["op"] == "cread" and ch.chance(30):
                     d["reader"] = self.schema_ref()[0]
                     self.ctx.probe("reader_schema_call")
@@ -336,7 +336,10 @@ class History:
             out = self.new("J")
             self.texts.append((out, key, sref))
             self.ctx.probe("json_call")
-            return {"op": "jwrite", "schema": sref, "records": rname, "out": out}
+            d = {"op": "jwrite", "schema": sref, "records": rname, "out": out}
+            if ch.chance(25):
+                d["opts"] = ch.pick([{"write_union_type": False}, {"validator": True}, {"strict": True}])
+            return d
         if k == 9 and ch.chance(35):
             # hand-written JSON with fields absent: the reader must fill schema defaults
             self.ctx.probe("json_call")
@@ -350,7 +353,11 @@ class History:
         if k == 9 and self.texts:
             t = ch.pick(self.texts)
             self.ctx.probe("json_call")
-            return {"op": "jread", "schema": t[2] if ch.chance(70) else self.schema_ref()[0], "text": t[0]}
+            d = {"op": "jread", "schema": t[2] if ch.chance(70) else self.schema_ref()[0], "text": t[0]}
+            if ch.chance(20):
+                d["reader"] = self.schema_ref()[0]
+                self.ctx.probe("reader_schema_call")
+            return d
         if k == 10:
             sref, key = self.schema_ref()
             self.ctx.probe("generate_call")
@@ -420,6 +427,10 @@ class History:
         self.parsed.append((out, key, None))
         return {"op": "parse", "schema": "S_" + key, "out": out}
 
+
+READ_OPTS = [{"return_record_name": True}, {"return_record_name": True, "return_record_name_override": True},
+             {"return_named_type": True}, {"return_named_type": True, "return_named_type_override": True},
+             {"handle_unicode_errors": "ignore"}]
 
 REF_KEYS = ("schema", "datum", "records", "bytes", "reader", "text", "handle", "into")
 
